@@ -1,5 +1,5 @@
 SPECIFICATION Spec
-CONSTANTS MaxOps = 3  Dev = {}  Kty = "RSA"
+CONSTANTS MaxOps = 3  Dev = {}  Kty = "RSA"  ExportEvery = 1
 INVARIANT PublicClean
 INVARIANT PrivateOnPublicIsError
 INVARIANT NoPrivateGain
